@@ -290,8 +290,9 @@ def r14_3(ctx, rc):
                 sg, [m.id], appended,
                 lambda x: (x.kind == 'leaf' and x.id != m.id and any(
                     isinstance(l, tuple) and l[0] == 'exc'
-                    for _, l in x.succ)) or x.kind in (
-                        'exit_t', 'exit_f', 'exit_n'))
+                    for _, l in x.succ)) or (x.kind in (
+                        'exit_t', 'exit_f', 'exit_n') and
+                        x.func is F))
             if w:
                 bad = w
         if bad:
